@@ -85,14 +85,35 @@ theorem delta_size_roundtrip (n : Nat) (h : n < u64) (after : Bytes) :
   decodeHeaderSize_enc n h after
 
 /-- Applying any delta git can produce (base size, target size, instructions) to its base, the
-way `File::resolve_deltas` does it, yields exactly the target object. (`hne`: git never writes a
-delta from the empty object to the empty object; on that input `resolve_deltas` panics before
-reaching `apply` — see the model.) -/
+way `File::resolve_deltas` does it, yields exactly the target object — for EVERY base and every
+well-formed instruction list, the empty object included (round 2: the side condition "base or
+target non-empty" is gone with /repo commit a28439df2). -/
 theorem delta_apply_correct (base : Bytes) (instrs : List Instr) (hwf : ∀ i ∈ instrs, i.Wf base)
-    (hb : base.length < u64) (ht : (sem base instrs).length < u64)
-    (hne : base ≠ [] ∨ sem base instrs ≠ []) :
+    (hb : base.length < u64) (ht : (sem base instrs).length < u64) :
     applyDelta base (encDelta base instrs) = .ok (sem base instrs) :=
-  applyDelta_enc base instrs hwf hb ht hne
+  applyDelta_enc base instrs hwf hb ht
+
+/-- the round-1 statement (with the side condition), kept as a corollary -/
+theorem delta_apply_correct_nonempty (base : Bytes) (instrs : List Instr) (hwf : ∀ i ∈ instrs, i.Wf base)
+    (hb : base.length < u64) (ht : (sem base instrs).length < u64)
+    (_hne : base ≠ [] ∨ sem base instrs ≠ []) :
+    applyDelta base (encDelta base instrs) = .ok (sem base instrs) :=
+  delta_apply_correct base instrs hwf hb ht
+
+/-- Exactly when resolving a delta is panic-free, for ANY delta bytes whose declared base size is
+the size of the base: iff the interpreter accepts the instructions for the declared result size.
+There is no other precondition (in particular none on the sizes being non-zero). -/
+theorem delta_resolve_panics_iff (base delta : Bytes) (bs o1 rs o2 : Nat)
+    (h1 : decodeHeaderSize delta = .ok (bs, o1)) (h2 : decodeHeaderSize (delta.drop o1) = .ok (rs, o2))
+    (hbs : bs = base.length) :
+    applyDelta base delta = .panic ↔ apply base rs (delta.drop (o1 + o2)) = none := by
+  unfold applyDelta
+  rw [h1]
+  simp only
+  rw [h2]
+  simp only
+  rw [if_neg (by omega), hbs, List.take_length]
+  cases apply base rs (delta.drop (o1 + o2)) <;> simp
 
 -- non-vacuity: a copy with a spelled-out zero offset byte, an insert, a copy from the middle
 example :
@@ -101,8 +122,9 @@ example :
     (∀ i ∈ instrs, i.Wf base) ∧ sem base instrs = [10, 11, 99, 13, 14] ∧
       applyDelta base (encDelta base instrs) = .ok [10, 11, 99, 13, 14] := by decide +kernel
 
-/-- and the quirk is real: the empty-to-empty delta `00 00` makes the model of `resolve_deltas`
-panic (replayed against the real code by the harness as `apply - 0000`). -/
-theorem empty_delta_panics : applyDelta [] (encDelta [] []) = .panic := by decide +kernel
+/-- the formerly panicking input: the empty-to-empty delta `00 00` now resolves to the empty
+object (replayed against the real code by the harness as `apply - 0000 -`). Round 1 had
+`empty_delta_panics` here, true of the code before a28439df2. -/
+theorem empty_delta_ok : applyDelta [] (encDelta [] []) = .ok [] := by decide +kernel
 
 end GixModel.Props.C07
